@@ -9,3 +9,8 @@ import KskmProofs.C08
 import KskmProofs.C09
 import KskmProofs.C13
 import KskmProofs.C03
+import KskmProofs.C06
+import KskmProofs.C07
+import KskmProofs.C10
+import KskmProofs.C17
+import KskmProofs.C20
